@@ -10,3 +10,6 @@ package routing
 // simHook is a schedule/crash point of the deterministic-simulation harness. Without the
 // "verif" build tag it is an empty function and is inlined away.
 func simHook(point, key string) {}
+
+// simWrapCron lets the harness order cron jobs that fire on the same tick.
+func simWrapCron(name string, task func()) func() { return task }
